@@ -63,7 +63,11 @@ pub mod walkdir {
     }
     impl FileType {
         #[verifier::external_body]
-        pub fn is_dir(&self) -> (r: bool) ensures r == self@ { unimplemented!() }
+        /// (the ghost world argument is accepted and ignored: the name-directed effects table
+        /// cannot tell this `is_dir` from `Path::is_dir`)
+        pub fn is_dir(&self, Tracked(w): Tracked<&crate::spec::World>) -> (r: bool) ensures r == self@ { unimplemented!() }
+        #[verifier::external_body]
+        pub fn is_file(&self, Tracked(w): Tracked<&crate::spec::World>) -> (r: bool) ensures r == !self@ { unimplemented!() }
     }
     impl Error {
         #[verifier::external_body]
